@@ -267,9 +267,10 @@ def run(repo, chk):
             okc = len(cc) == 1 and cc[0][2][2].get("threshold") == Opaque("run_at_time") and cc[0][2][2].get("repeat") == Opaque("daily_flag") \
                 and isinstance(cc[0][2][2].get("relation"), Opaque) and cc[0][2][2]["relation"].text == "Comparison.eq"
             chk.expect(okc, "R-C08-4", "Control._time_control(SIM_TIME) builds SimTimeCondition(eq, run_at_time, repeat=daily_flag)", loc(tcf), found=cc[0][1] if cc else None)
-    ci = repo.func(CTRL, "Control.__init__")
-    src = unparse(ci)
-    chk.expect("SimTimeCondition" in src and "_ControlType.presolve" in src, "R-C08-4", "time-conditioned controls are pre-solve (back-tracked to their instant)", loc(ci))
+    from ._shared import control_type_table
+    table_, default_, ci, init_ok = control_type_table(repo)
+    tkey = [k for k in table_ if "SimTimeCondition" in k]
+    chk.expect(init_ok and bool(tkey) and table_[tkey[0]] == "_ControlType.presolve", "R-C08-4", "time-conditioned controls are pre-solve (back-tracked to their instant)", loc(ci), found=table_)
     cai = repo.func(CTRL, "ControlAction.__init__")
     m = re.search(r"attribute == 'leak_status':\s*self\._private_attribute = '(\w+)'", unparse(cai))
     chk.expect(bool(m) and m.group(1) == "_leak_status", "R-C08-4", "ControlAction maps leak_status to the run-time field _leak_status", loc(cai), found=m.group(1) if m else None)
